@@ -12,7 +12,8 @@ META = {
     "text": "ServerLifecycle.tla models grpc.Server at settled-step granularity: per-connection handler quota (pending streams get a "
             "handler only while fewer than MaxConcurrentStreams handlers of the connection run), client cancellation, handler "
             "return with a status, GracefulStop and Stop at any point (also GracefulStop after a Stop that handlers outlive), with and "
-            "without the stream worker pool (grpc.NumStreamWorkers). TLC checks I_Sem, I_GracefulWaits, I_GracefulServes, "
+            "without the stream worker pool (grpc.NumStreamWorkers), and late-reader RPCs whose response (larger than the client's "
+            "stream window) stays queued in the server transport after the handler returned until the client application reads. TLC checks I_Sem, I_GracefulWaits, I_GracefulServes, "
             "I_NoAcceptAfter and I_StopCancels for 2 connections x 2 RPCs with limit 1 and 1 connection x 3 RPCs with limit 2 "
             "(thorough: also 2 x 3 with limit 2, model only; negative controls: quota not enforced; GracefulStop not waiting for "
             "handlers). Every transition of the state graphs (a seeded sample in the quick tier) is executed on the real grpc.Server "
@@ -39,6 +40,10 @@ def step_of(state_text, label):
     m = re.match(r'(\w+)(?:\((.*)\))?', label)
     name, args = m.group(1), (m.group(2) or "")
     args = [a.strip() for a in args.split(",")] if args else []
+    if name == "StartBig":
+        return {"a": "startbig", "c": int(args[0]), "r": int(args[1]), "k": 0}
+    if name == "Read":
+        return {"a": "read", "c": int(args[0]), "r": int(args[1]), "k": 0}
     if name == "Start":
         return {"a": "start", "c": int(args[0]), "r": int(args[1]), "k": 0}
     if name == "Cancel":
@@ -68,7 +73,17 @@ def judge(ctx, res, tpath, what):
 
 def scope(ctx, binary, mccfg, tracecfg, nc, nr, limit, cap, tag):
     g = ctx.dump_graph("ServerLifecycle", mccfg, workers=4)
-    behs = ctx.edge_cover(g, step_of, limit=cap)
+    behs = ctx.edge_cover(g, step_of, limit=None)
+    if cap is not None and len(behs) > cap:
+        # seeded sample that always keeps some behaviours ending in a late read after a GracefulStop
+        def late_read(b):
+            return b[-1]["a"] == "read" and any(s["a"] in ("gstop", "gfinish") for s in b)
+        prio = [b for b in behs if late_read(b)]
+        rest = [b for b in behs if not late_read(b)]
+        ctx.rng.shuffle(prio)
+        ctx.rng.shuffle(rest)
+        prio = prio[:cap // 8]
+        behs = prio + rest[:cap - len(prio)]
     tpath = os.path.join(ctx.run, "trace-%s.ndjson" % tag)
     # the behaviours are independent: replay them in SHARDS driver processes side by side
     # behaviours with a GracefulStop issued while a stream waits at the handler quota go last (should the
